@@ -180,6 +180,12 @@ def rule_strand(ctx, R):
             none = none_edge_after(b, i)
             regs = {j for j, tt in b.calls() if callee(tt) in registration_fns(ctx)}
             unb = set()
+            # state changes made through a method of the connection (`conn.mark_authenticated()`)
+            for x, tt in b.calls():
+                c_ = callee(tt)
+                cb_ = ctx.prog.bodies.get(c_) if c_ and c_.startswith("network::connection::Connection::") else None
+                if cb_ is not None and any(st_["k"] == "=" and [e for e in st_["l"]["p"] if isinstance(e, dict) and e.get("f") == CONN_STATE] for bb_ in cb_.bbs for st_ in bb_["s"]):
+                    unb.add(x)
             for x, bb in enumerate(b.bbs):
                 for st in bb["s"]:
                     if st["k"] == "=" and [e for e in st["l"]["p"] if isinstance(e, dict) and e.get("f") == CONN_STATE]:
